@@ -1,6 +1,6 @@
 import Marwood.Store.Compare
 /-!
-# Library procedures written in Scheme (`marwood/prelude.scm` lines 143–258)
+# Library procedures written in Scheme (`marwood/prelude.scm`, from `(define (list . l) l)` to the end)
 
 Each definition is a fuel-indexed shallow embedding that follows the Scheme text clause by clause;
 the Scheme text of every definition is quoted above its model, and `lib/props/c14.py` checks on
@@ -27,7 +27,62 @@ def add1 (s : Store) (v : VCell) : Outcome VCell := do
   | .num n => .ok (.num (n + 1))
   | _ => .err .syntax
 
+/-- `(+ n 2)` on an exact integer -/
+def add2 (s : Store) (v : VCell) : Outcome VCell := do
+  match (← s.get v) with
+  | .num n => .ok (.num (n + 2))
+  | _ => .err .syntax
+
+/-- `(eq? x y)` / `(eqv? x y)` as a Scheme test: `eqv(left = y, right = x)` -/
+def eqTest (s : Store) (x y : VCell) : Outcome Bool := eqv s y x
+def equalTest (fuel : Nat) (s : Store) (x y : VCell) : Outcome Bool := equal fuel s y x
+
+/-- the quoted symbol `'circular-list` (an immediate here: it is only ever handed to `cdr`, which rejects it) -/
+def circularListSym : VCell := .sym "circular-list".toList
+
 /-
+; length walks the list with two cursors: `slow` advances one pair for every
+; two pairs of `fast`. The cursors can only meet on a circular list, which is
+; reported like any other argument that is not a proper list.
+(define (length list)
+  (letrec
+   ((count
+     (lambda (fast slow n)
+       (cond
+         ((null? fast) n)
+         ((null? (cdr fast)) (+ n 1))
+         ((eq? (cdr (cdr fast)) (cdr slow)) (cdr 'circular-list))
+         (else (count (cdr (cdr fast)) (cdr slow) (+ n 2)))))))
+    (count list list 0)))
+(fix 08d0569 in /repo; the definition before it is `Pinned.length` below.)
+`(cdr fast)`, `(cdr (cdr fast))` and `(cdr slow)` are evaluated twice by the Scheme text (test and
+operands); `cdr` reads the store and nothing in between writes it, so the model names each value once
+(`Lemmas/PreludeInterp.lean` proves the model equal to the image of the text as it stands).
+One unit of fuel for the call of `length`, one per call of `count`.
+-/
+def lengthCount : Nat → Store → VCell → VCell → VCell → Outcome VCell
+  | 0, _, _, _, _ => .diverge
+  | f+1, s, fast, slow, n => do
+    if (← nullP s fast) then .ok n
+    else do
+      let d ← cdrV s fast
+      if (← nullP s d) then add1 s n
+      else do
+        let dd ← cdrV s d
+        let sd ← cdrV s slow
+        if (← eqTest s dd sd) then cdrV s circularListSym
+        else do
+          let n' ← add2 s n
+          lengthCount f s dd sd n'
+
+def length : Nat → Store → VCell → Outcome VCell
+  | 0, _, _ => .diverge
+  | f+1, s, l => lengthCount f s l l (.num 0)
+
+namespace Pinned
+/-
+The definition of `length` before the repair (pinned tree; kept for the C06 witness
+`length_circular_diverges`):
 (define (length list)
     (cond
       ((null? list) 0)
@@ -41,6 +96,7 @@ def length : Nat → Store → VCell → Outcome VCell
       let d ← cdrV s l
       let n ← length f s d
       add1 s n
+end Pinned
 
 /-
 (define (memq obj list)
@@ -60,10 +116,6 @@ def mem (test : Store → VCell → VCell → Outcome Bool) : Nat → Store → 
       else do
         let d ← cdrV s l
         mem test f s obj d
-
-/-- `(eq? x y)` / `(eqv? x y)` as a Scheme test: `eqv(left = y, right = x)` -/
-def eqTest (s : Store) (x y : VCell) : Outcome Bool := eqv s y x
-def equalTest (fuel : Nat) (s : Store) (x y : VCell) : Outcome Bool := equal fuel s y x
 
 def memq (fuel : Nat) (s : Store) (obj l : VCell) : Outcome VCell := mem eqTest fuel s obj l
 def memv (fuel : Nat) (s : Store) (obj l : VCell) : Outcome VCell := mem eqTest fuel s obj l
@@ -149,7 +201,7 @@ def listElems : Nat → Store → VCell → Outcome (List VCell)
     | _ => .err .syntax
 
 /-
-(define (map f . xss)
+(define (map f xs . xss)
   (letrec
    ((map-all
      (lambda (xss)
@@ -157,7 +209,9 @@ def listElems : Nat → Store → VCell → Outcome (List VCell)
            '()
            (cons (apply f (map1 car xss))
                  (map-all (map1 cdr xss)))))))
-    (map-all xss)))
+    (map-all (cons xs xss))))
+(fix 71c917c in /repo — at least one list is required; before it the formals were `(f . xss)` and
+`(map f)` never reached the base case of `map-all`.)
 -/
 def mapAll (g : Callee) : Nat → Store → VCell → Res
   | 0, _, _ => .diverge
@@ -171,12 +225,17 @@ def mapAll (g : Callee) : Nat → Store → VCell → Res
       let (s, r) ← mapAll g f s cdrs
       cons s [y, r]
 
-def map (g : Callee) (fuel : Nat) (s : Store) (lists : List VCell) : Res := do
-  let (s, xss) ← list s lists
-  mapAll g fuel s xss
+/-- `lists` are the arguments after `f`: the first is `xs`, `VARARG` collects the others into `xss`,
+    the body conses `xs` back in front; no list at all is the arity error of the closure -/
+def map (g : Callee) (fuel : Nat) (s : Store) : List VCell → Res
+  | [] => .err .arity
+  | xs :: rest => do
+    let (s, r) ← list s rest
+    let (s, xss) ← cons s [xs, r]
+    mapAll g fuel s xss
 
 /-
-(define (for-each f . xss)
+(define (for-each f xs . xss)
   (letrec
    ((for-each-all
      (lambda (xss)
@@ -184,7 +243,7 @@ def map (g : Callee) (fuel : Nat) (s : Store) (lists : List VCell) : Res := do
            void
            (begin (apply f (map1 car xss))
                   (for-each-all (map1 cdr xss)) void)))))
-    (for-each-all xss)))
+    (for-each-all (cons xs xss))))
 `void` is the global bound by `(define void (set! void 0))`, whose value is `VCell::Void`.
 -/
 def forEachAll (g : Callee) : Nat → Store → VCell → Res
@@ -199,8 +258,11 @@ def forEachAll (g : Callee) : Nat → Store → VCell → Res
       let (s, _) ← forEachAll g f s cdrs
       .ok (s, .void)
 
-def forEach (g : Callee) (fuel : Nat) (s : Store) (lists : List VCell) : Res := do
-  let (s, xss) ← list s lists
-  forEachAll g fuel s xss
+def forEach (g : Callee) (fuel : Nat) (s : Store) : List VCell → Res
+  | [] => .err .arity
+  | xs :: rest => do
+    let (s, r) ← list s rest
+    let (s, xss) ← cons s [xs, r]
+    forEachAll g fuel s xss
 
 end Marwood.Store
